@@ -358,7 +358,7 @@ PROPS["C15"] = dict(
 )
 
 PROPS["C17"] = dict(
-    suites=["c17"],
+    suites=["c17", "c19"],
     lean_modules=["ServlinVerif.Props.C17", "ServlinVerif.Props.C17Line"],
     audit="Audit/C17.lean",
     rule="LogEvent::new(level, tags).write_jsonl: every Unicode scalar value below U+3000 as a one-character string plus every 97th BMP / "
@@ -366,8 +366,9 @@ PROPS["C17"] = dict(
          "types at min/-1/0/max incl. i128/u128, f32/f64 corner values (0, -0, subnormal, max, NaN, +-inf) and 500 (5000) random bit patterns, "
          "bool/null/Option, 3000 (30000) random events with 0-20 tags mixing all escape classes in values and in tag names. The line is "
          "parsed by the strict RFC 8259 parser Spec/JsonParser. Non-trivial = at least one tag.",
-    nontrivial=lambda tag, args, obs: args[1] != "",
-    klass=lambda tag, args, obs: "c17:tags=%d" % min(len([x for x in args[1].split(",") if x]), 5),
+    nontrivial=lambda tag, args, obs: tag != "c17" or args[1] != "",
+    klass=lambda tag, args, obs: "c19:lines-on-disk" if tag != "c17" else "c17:tags=%d" % min(len([x for x in args[1].split(",") if x]), 5),
+    shards={"c19": 8},
     explanation="C17_string_roundtrip / C17_no_breakout: for every list of Unicode scalar values the escaped text is read back exactly by the RFC 8259 "
                 "string parser, which stops exactly at the serialiser's closing quote - no value or name can break out, add members or split the "
                 "line. C17_line (Props/C17Line.lean): for every tag list (arbitrary Unicode names and strings, all integers, booleans, null, "
